@@ -558,3 +558,146 @@ func HasBoundary(v value.V) bool {
 	}
 	return false
 }
+
+// CheckResponseLocations verifies that every result attribute travels in the
+// location the selected response assigns it: headers, cookies, body.
+func CheckResponseLocations(d *m.Design, meth *m.Method, r *m.Response, result value.V, resp *harness.RawResp) string {
+	if meth.Result == nil {
+		if len(resp.Body) != 0 {
+			return fmt.Sprintf("response has a body %q although the method has no result", trunc(resp.Body))
+		}
+		return ""
+	}
+	hdr := http.Header(resp.Header)
+	fields := d.ObjectFields(meth.Result)
+	if fields == nil {
+		// primitive, array or map result: the body
+		got, err := FromJSON(d, meth.Result, resp.Body)
+		if err != nil {
+			return fmt.Sprintf("response body does not decode as %s: %v (%q)", d.Underlying(meth.Result), err, trunc(resp.Body))
+		}
+		if msg := Match(d, meth.Result, Canonicalize(d, meth.Result, result), got, true, ""); msg != "" {
+			return "response body differs from the result: " + msg
+		}
+		return ""
+	}
+	get := func(name string) (value.V, *m.Attr, bool) {
+		f := d.FieldByName(meth.Result, name)
+		if f == nil {
+			return value.Nil(), nil, false
+		}
+		v, ok := result.Get(name)
+		return v, f.Attr, ok && !v.IsNil()
+	}
+	mapped := map[string]bool{}
+	if r != nil {
+		for _, p := range r.Headers {
+			mapped[p.Attr] = true
+			v, a, set := get(p.Attr)
+			texts, present := hdr[http.CanonicalHeaderKey(p.WireName())]
+			if !set {
+				if present && a != nil && a.Default == nil {
+					return fmt.Sprintf("response header %q present although attribute %q is unset", p.WireName(), p.Attr)
+				}
+				continue
+			}
+			if emptyColl(v) && !present {
+				continue
+			}
+			if !present {
+				return fmt.Sprintf("response header %q missing for attribute %q = %s", p.WireName(), p.Attr, v.Canon())
+			}
+			if msg := wireMatches(d, a, texts, v, true); msg != "" {
+				if a.Default != nil && IsZero(v) {
+					if wireMatches(d, a, texts, Canonicalize(d, a, *a.Default), true) == "" {
+						continue
+					}
+				}
+				return fmt.Sprintf("response header %q: %s", p.WireName(), msg)
+			}
+		}
+		cookies := map[string]string{}
+		rr := http.Response{Header: hdr}
+		for _, c := range rr.Cookies() {
+			cookies[c.Name] = c.Value
+		}
+		for _, p := range r.Cookies {
+			mapped[p.Attr] = true
+			v, a, set := get(p.Attr)
+			txt, present := cookies[p.WireName()]
+			if !set {
+				if present && a != nil && a.Default == nil {
+					return fmt.Sprintf("response cookie %q present although attribute %q is unset", p.WireName(), p.Attr)
+				}
+				continue
+			}
+			if !present {
+				return fmt.Sprintf("response cookie %q missing for attribute %q = %s", p.WireName(), p.Attr, v.Canon())
+			}
+			if msg := wireMatches(d, a, []string{txt}, v, false); msg != "" {
+				if a.Default != nil && IsZero(v) && wireMatches(d, a, []string{txt}, Canonicalize(d, a, *a.Default), false) == "" {
+					continue
+				}
+				return fmt.Sprintf("response cookie %q: %s", p.WireName(), msg)
+			}
+		}
+		if r.Body != nil && r.Body.Mode == "attr" {
+			v, a, set := get(r.Body.Attr)
+			if !set && len(resp.Body) == 0 {
+				return ""
+			}
+			got, err := FromJSON(d, a, resp.Body)
+			if err != nil {
+				return fmt.Sprintf("response body does not decode as attribute %q: %v (%q)", r.Body.Attr, err, trunc(resp.Body))
+			}
+			if msg := Match(d, a, Canonicalize(d, a, v), got, true, ""); msg != "" {
+				return fmt.Sprintf("response body (attribute %q) differs: %s", r.Body.Attr, msg)
+			}
+			return ""
+		}
+	}
+	// default body: every attribute not mapped to a header or cookie
+	var bodyNames []string
+	for _, f := range fields {
+		if !mapped[f.Name] {
+			bodyNames = append(bodyNames, f.Name)
+		}
+	}
+	if len(bodyNames) == 0 {
+		if len(strings.TrimSpace(string(resp.Body))) != 0 {
+			return fmt.Sprintf("response has a body %q although every attribute is mapped to headers/cookies", trunc(resp.Body))
+		}
+		return ""
+	}
+	var objm map[string]json.RawMessage
+	if err := json.Unmarshal(resp.Body, &objm); err != nil {
+		return fmt.Sprintf("response body is not a JSON object: %v (%q)", err, trunc(resp.Body))
+	}
+	allowed := map[string]bool{}
+	for _, n := range bodyNames {
+		allowed[n] = true
+	}
+	for k := range objm {
+		if !allowed[k] {
+			return fmt.Sprintf("response body carries key %q which the design does not put in the body (body attributes: %v)", k, bodyNames)
+		}
+	}
+	for _, n := range bodyNames {
+		v, a, _ := get(n)
+		raw, present := objm[n]
+		var got value.V
+		if present && string(raw) != "null" {
+			g, err := FromJSON(d, a, raw)
+			if err != nil {
+				return fmt.Sprintf("response body attribute %q does not decode: %v", n, err)
+			}
+			got = g
+		} else {
+			got = value.Nil()
+		}
+		if msg := Match(d, a, Canonicalize(d, a, v), got, true, n); msg != "" {
+			return "response body differs from the result: " + msg
+		}
+	}
+	return ""
+}
